@@ -408,6 +408,13 @@ func genCleanup(outDir string) (string, error) {
 	fmt.Fprintf(&b, "/-- FeatureLocal.CleanWriteApprovalCaches(ski) with ONE pending write: (same SKI, the pending approval is gone) -/\n")
 	fmt.Fprintf(&b, "def approvalClean : List (Bool × Bool) := [%s]\n\n", strings.Join(cr, ", "))
 	facts = append(facts, "approvalVerdict="+vbits, "approvalClean="+cbits)
+	ewS, ewB, ewD, _, err := probeEntityWindow()
+	if err != nil {
+		return "", fmt.Errorf("teardown inside the entity-removed notification: %v", err)
+	}
+	fmt.Fprintf(&b, "/-- T's connection removed (RemoveRemoteDevice) WHILE T's notification \"entity [1] removed\" is processed, at the EntityChange/Remove\n    event; T held one subscription and one binding from [1]/1. After both returned: (subscription gone, binding gone, device gone) -/\n")
+	fmt.Fprintf(&b, "def entityWindowTeardown : Bool × Bool × Bool := (%s, %s, %s)\n\n", bl(ewS), bl(ewB), bl(ewD))
+	facts = append(facts, fmt.Sprintf("entityWindowTeardown=%d%d%d", b2i(ewS), b2i(ewB), b2i(ewD)))
 	facts = append(facts, fmt.Sprintf("resolve=%d%d%d%d%d%d", b2i(res.goneBySki), b2i(res.goneByAddress), b2i(res.otherBySki), b2i(res.otherByAddress), b2i(res.sharedBySki), b2i(res.sharedByAddress)))
 	fmt.Fprintf(&b, "-- FACTS %s\n", strings.Join(facts, " "))
 	b.WriteString("end Spine.Generated.Cleanup\n")
